@@ -23,6 +23,7 @@ import subprocess
 import sys
 import time
 import tomllib
+import dataclasses
 from dataclasses import dataclass, field
 from typing import Dict, List, Optional, Tuple
 
@@ -873,6 +874,38 @@ def splice_fn(text: str, sp: Splice, item: str, vacuity: bool = False) -> str:
         fr.insert(ct[bc].start, "\n" + sp.body_end)
     cl_all = R.closures(ct, bo + 1, bc)
     bare = [n for n, c in enumerate(cl_all) if ct[c[1] + 1].text != "->" and n not in sp.closures]
+    if len(cl_all) == 0 and sp.closures:
+        # every closure is gone: no header can be misapplied, the function is judged by its contract alone
+        sp = dataclasses.replace(sp, closures={})
+    def _param_names(hdr_text: str) -> List[str]:
+        # names bound by a closure header `|a, (b, c): T, mut d|` (types dropped)
+        inner = hdr_text.strip()
+        inner = inner[inner.index("|") + 1:]
+        inner = inner[:inner.index("|")] if "|" in inner else inner
+        names = []
+        depth = 0
+        cur = ""
+        for chx in inner + ",":
+            if chx in "(<[":
+                depth += 1
+            elif chx in ")>]":
+                depth -= 1
+            if chx == "," and depth == 0:
+                nm = cur.split(":", 1)[0].replace("mut ", "").strip()
+                if nm:
+                    names.append(nm)
+                cur = ""
+            else:
+                cur += chx
+        return names
+    # headers whose closure no longer exists are dropped IF the closures that remain still bind the names their
+    # headers bind (so no header slid onto a different closure); anything else is refused below
+    extra = [n for n in sp.closures if n >= len(cl_all)]
+    if extra and not bare:
+        same = all(_param_names(text[ct[cl_all[n][0]].start:ct[cl_all[n][1]].end]) == _param_names(sp.closures[n])
+                   for n in sp.closures if n < len(cl_all))
+        if same:
+            sp = dataclasses.replace(sp, closures={n: h for n, h in sp.closures.items() if n < len(cl_all)})
     if sp.contract.strip() and (bare or any(n >= len(cl_all) for n in sp.closures)):
         # an un-annotated closure is opaque to Verus: whatever then fails to verify would be blamed on the
         # code although it is only undecided.  Refuse instead (UNDECIDED), never alarm.
@@ -884,6 +917,9 @@ def splice_fn(text: str, sp: Splice, item: str, vacuity: bool = False) -> str:
             if n >= len(cl):
                 raise ExtractError(f"{item}: closure #{n} not found (function has {len(cl)})")
             hf, hl, bf, bl = cl[n]
+            src_names = _param_names(text[ct[hf].start:ct[hl].end])
+            if src_names != _param_names(hdr) and not all(x.startswith("_") for x in src_names):
+                raise ExtractError(f"{item}: closure #{n} binds {src_names}, its contract header binds {_param_names(hdr)}: closure structure changed")
             fr.replace(ct[hf].start, ct[hl].end, hdr + " ")
             if ct[bf].text != "{":
                 fr.insert(ct[bf].start, "{ ")
